@@ -2,7 +2,7 @@ import logging
 from typing import Tuple
 
 import numpy as np
-from scipy.optimize import minimize
+from scipy.optimize import nnls
 
 from vopy.acquisition import MaxDiagonalAcquisition, optimize_acqf_discrete
 from vopy.algorithms.algorithm import PALAlgorithm
@@ -241,37 +241,21 @@ class VOGP(PALAlgorithm):
         :rtype: Tuple[np.ndarray, float]
         """
 
-        # TODO: Convert to CVXPY and check if efficient.
-
         cone_matrix = self.order.ordering_cone.W
 
         n = cone_matrix.shape[0]
 
-        def objective(z):
-            return np.linalg.norm(z)
+        # Least distance programming (Lawson & Hanson, Solving Least Squares Problems, ch. 23):
+        # min ||z|| s.t. Wz >= 1 is solved exactly via a non-negative least squares problem.
+        E = np.vstack([cone_matrix.T, np.ones((1, n))])
+        f = np.zeros(self.m + 1)
+        f[-1] = 1.0
+        dual, _ = nnls(E, f)
+        residual = E @ dual - f
+        z = -residual[:-1] / residual[-1]
+        norm = np.linalg.norm(z)
 
-        def constraint_func(z):
-            constraints = []
-            constraint = cone_matrix @ (z) - np.ones((n,))
-            constraints.extend(constraint)
-            return np.array(constraints)
-
-        z_init = np.ones(self.m)  # Initial guess
-        cons = [{"type": "ineq", "fun": lambda z: constraint_func(z)}]  # Constraints
-        res = minimize(
-            objective,
-            z_init,
-            method="SLSQP",
-            constraints=cons,
-            options={"maxiter": 1000000, "ftol": 1e-30},
-        )
-        norm = np.linalg.norm(res.x)
-        construe = np.all(constraint_func(res.x) + 1e-14)
-
-        if not construe:
-            pass
-
-        return res.x / norm, norm
+        return z / norm, norm
 
     def compute_pessimistic_set(self) -> set:
         """
